@@ -113,3 +113,15 @@ Theorem C09_source_dict_is_model : forall ctx rec l r,
      Ok (VDict (rebuild_dict l'))).
 Proof. exact gen_iter_dict. Qed.
 Print Assumptions C09_source_dict_is_model.
+
+From PV Require Import Leaves GenProofs.
+Open Scope string_scope.
+(** in which namespace a !py expression is evaluated, read from the source
+    ([Context.get_eval_string]): a chain whose first map is a fresh empty dict made by that call, then
+    the context, then the imports — a name bound by := in one expression can neither reach the context
+    nor be seen by a later expression *)
+Theorem C09_source_eval_scope_is_fresh_chain :
+  gen_eval_scope = (["{}"; "self"; "self._pystring_globals"]%list, true).
+Proof. exact gen_eval_scope_is_fresh_chain. Qed.
+Print Assumptions C09_source_eval_scope_is_fresh_chain.
+
